@@ -209,6 +209,19 @@ class SmartList(list):
         super(SmartList, self).sort(key=key, reverse=reverse)
 
 
+def _detach_for_move(new_parent, obj):
+    """
+    Prepares moving *obj* into the child-list of *new_parent*.
+    If *obj* is still a child of another parent, it is removed from there
+    so that it is never listed twice.
+
+    :param new_parent: odML Document or Section that will contain *obj*.
+    :param obj: odML Section or Property.
+    """
+    if obj.parent is not None:
+        obj.parent.remove(obj)
+
+
 @allow_inherit_docstring
 class Sectionable(BaseObject):
     """
@@ -260,6 +273,7 @@ class Sectionable(BaseObject):
             if section.name in self._sections:
                 raise ValueError("Section with name '%s' already exists." % section.name)
 
+            _detach_for_move(self, section)
             self._sections.insert(position, section)
             section._parent = self
         else:
@@ -273,6 +287,10 @@ class Sectionable(BaseObject):
         """
         from odml.section import BaseSection
         if isinstance(section, BaseSection):
+            if section.name in self._sections:
+                raise KeyError("Object with the same name already exists! " + str(section))
+
+            _detach_for_move(self, section)
             self._sections.append(section)
             section._parent = self
         elif isinstance(section, Iterable) and not isinstance(section, str):
